@@ -25,7 +25,7 @@ var R = hx.NewRecorder("C15", "cases = (endpoint kind: GMSSL client | GMSSL-only
 	"oracle = Handshake() returns (quiescence of the in-memory transport turns waiting into EOF; a read-after-EOF counter catches spinning), returns an error for every true deviation, HandshakeComplete stays false, no panic; legal variations (fragmented or coalesced messages, unknown ticket) must still succeed; non-trivial = deviation applied after at least one valid message or in the first message; distinct by hash of the plan")
 
 func TestMain(m *testing.M) {
-	R.Require("server_picks_unoffered_suite", "unoffered:control", "unoffered:refused", "client_stops_after_cke", "cke_sent_at:0300", "cke_sent_at:0301", "cke_sent_at:0302", "cke_sent_at:0303", "junk_certificate_verify", "jcv_vers:300", "ecdhe_ske", "hello_ext_sweep", "dev:big_record", "replay_deep:gmclient", "replay_deep:tlsclient", "replay_deep:gmserver", "replay_deep:tlsserver", "replay_deep:autoserver", "replay_control", "replay:omit_msg", "replay:hello_ext", "replay:swap_msgs", "hello_vector_lengths", "dev:cke_ciphertext_byte", "dev:cert_list", "omitted_client_certificate", "fallback_scsv", "tls_scripted_server:control", "tls_scripted_server:version_above_offer", "tls_scripted_server:deviations", "short_messages_after_hello", "serverhello_version_sweep", "tls_resumption_deviation", "dev:inner_len", "dev:trailing", "dev:alert_flood", "inner_length_sweep", "peer_pressed_on_after_alert", "endpoint:gmclient", "endpoint:gmserver", "endpoint:autoserver", "endpoint:tlsserver", "endpoint:tlsclient", "vers_sweep_done", "dev:omit", "dev:repeat", "dev:retype", "dev:reorder", "dev:truncate", "dev:len_field", "dev:split", "dev:coalesce",
+	R.Require("vers_sweep_maxversion_above_tls12", "server_picks_unoffered_suite", "unoffered:control", "unoffered:refused", "client_stops_after_cke", "cke_sent_at:0300", "cke_sent_at:0301", "cke_sent_at:0302", "cke_sent_at:0303", "junk_certificate_verify", "jcv_vers:300", "ecdhe_ske", "hello_ext_sweep", "dev:big_record", "replay_deep:gmclient", "replay_deep:tlsclient", "replay_deep:gmserver", "replay_deep:tlsserver", "replay_deep:autoserver", "replay_control", "replay:omit_msg", "replay:hello_ext", "replay:swap_msgs", "hello_vector_lengths", "dev:cke_ciphertext_byte", "dev:cert_list", "omitted_client_certificate", "fallback_scsv", "tls_scripted_server:control", "tls_scripted_server:version_above_offer", "tls_scripted_server:deviations", "short_messages_after_hello", "serverhello_version_sweep", "tls_resumption_deviation", "dev:inner_len", "dev:trailing", "dev:alert_flood", "inner_length_sweep", "peer_pressed_on_after_alert", "endpoint:gmclient", "endpoint:gmserver", "endpoint:autoserver", "endpoint:tlsserver", "endpoint:tlsclient", "vers_sweep_done", "dev:omit", "dev:repeat", "dev:retype", "dev:reorder", "dev:truncate", "dev:len_field", "dev:split", "dev:coalesce",
 		"dev:oversize", "dev:ccs_early", "dev:appdata_early", "dev:alert_fatal", "dev:unknown_record", "dev:close", "dev:record_overflow", "replay_perturbed", "legal_must_succeed", "cke_1byte", "hostile_suites")
 	for d := 0; d <= 5; d++ {
 		R.Require(fmt.Sprintf("depth:%d", d))
@@ -831,7 +831,7 @@ func TestC15_ScriptedDeviations(t *testing.T) {
 
 // ---- hostile ClientHello: versions, suites, compression, tickets
 
-func helloCase(t interface{ Fatalf(string, ...any) }, mode string, co rgmssl.ClientOpts, seed string, expectOK bool, what string) {
+func helloCase(t interface{ Fatalf(string, ...any) }, mode string, co rgmssl.ClientOpts, seed string, expectOK bool, what string, maxVersion ...uint16) {
 	p := tlsx.GetPKI()
 	var sc *gmtls.Config
 	switch mode {
@@ -841,6 +841,9 @@ func helloCase(t interface{ Fatalf(string, ...any) }, mode string, co rgmssl.Cli
 		sc = tlsx.AutoServer(p, p.RSASrv, "s"+seed)
 	default:
 		sc = tlsx.TLSServer(p, p.RSASrv, "s"+seed)
+	}
+	if len(maxVersion) > 0 {
+		sc.MaxVersion = maxVersion[0]
 	}
 	r := tlsx.RunAgainstScriptedClient(sc, co, nil, seed, nil)
 	desc := fmt.Sprintf("%s mode=%s opts=%+v | endpoint hs=%v | peer err=%v", what, mode, co, r.GM.HSErr, r.PeerErr)
@@ -874,6 +877,15 @@ func TestC15_VersionSweep(t *testing.T) {
 			// scripted GMSSL client cannot finish a TLS handshake: still only version 0x0101 may complete)
 			helloCase(t, mode, rgmssl.ClientOpts{VersionOverride: uint16(v), ForceVersion: true, Suites: []uint16{tlsx.GMECCSM4CBCSM3, tlsx.GMECCSM4GCMSM3, 0xc02f, 0xc014, 0x009c, 0x002f, 0x0035}}, fmt.Sprint("w", v), ok, fmt.Sprintf("ClientHello version %#04x offering GM and TLS suites", v))
 			n += 2
+			if v >= 0x0300 && (v <= 0x0310 || v >= 0x03f0) {
+				// a configuration that allows "everything up to" a version above the ones implemented (a Config written for
+				// a newer library): the versions it names beyond TLS 1.2 are not negotiable
+				for _, mv := range []uint16{0x0304, 0x0400, 0xffff} {
+					helloCase(t, mode, rgmssl.ClientOpts{VersionOverride: uint16(v), ForceVersion: true, Suites: []uint16{tlsx.GMECCSM4CBCSM3, 0xc02f, 0xc014, 0x009c, 0x002f, 0x0035}}, fmt.Sprint("m", v, mv), false, fmt.Sprintf("ClientHello version %#04x, server MaxVersion %#04x", v, mv), mv)
+					n++
+				}
+				R.Class("vers_sweep_maxversion_above_tls12")
+			}
 		}
 		R.Case(true, hx.HashKey("vers", v), "vers_sweep")
 	}
